@@ -158,6 +158,9 @@ def parse_cruns(text):
     return res
 
 
+POISON = -999999
+
+
 def run_csem(text, shards=None):
     drv = ocaml_driver('csem')
     d = os.path.join('/dev/shm', 'csemx.%d' % os.getpid())
@@ -198,6 +201,8 @@ def expected_vs_machine(watch, crun, mrun, lay, mwatch):
                 got = maddr[addrs[0]] + 256 * maddr[addrs[1]]
             else:
                 got = maddr[addrs[i]]
+        if ev == POISON:
+            continue           # written by store(): the accumulator's contents are not defined by the source
         exp = ev % (1 << bits)
         if exp != got:
             diffs.append(('%s[%d]' % (n, i) if n not in ('X', 'Y') else n, exp, got))
